@@ -7,9 +7,11 @@ const stdAssume = "the Go runtime, testing/synctest (fake clock, quiescence) and
 func registerAll() {
 	conc := instrument.Rules{Conc: true}
 	// ---- engine sem ----
-	builds["sem"] = &build{name: "sem", pkg: modPath + "/internal/vkgo/pkg/semaphore", harness: []string{"sem/zz_verif_sem_test.go"},
+	semHarness := []string{"sem/zz_verif_sem_test.go", "sem/zz_verif_sem_peek_test.go"}
+	semAlt := map[string]string{"sem/zz_verif_sem_peek_test.go": "sem/blackbox/zz_verif_sem_peek_test.go"}
+	builds["sem"] = &build{name: "sem", pkg: modPath + "/internal/vkgo/pkg/semaphore", harness: semHarness, altHarness: semAlt,
 		patterns: []string{"./internal/vkgo/pkg/semaphore"}, rules: conc}
-	builds["sem-race"] = &build{name: "sem-race", pkg: modPath + "/internal/vkgo/pkg/semaphore", harness: []string{"sem/zz_verif_sem_test.go"}, race: true}
+	builds["sem-race"] = &build{name: "sem-race", pkg: modPath + "/internal/vkgo/pkg/semaphore", harness: semHarness, altHarness: semAlt, race: true}
 	properties["C42"] = &property{id: "C42", engine: "sem", level: "exploration",
 		configs: []config{
 			{name: "sem", build: "sem", params: map[string]any{"mode": "sim"}, quick: tierCfg{wallSec: 25, detPct: 2}, thorough: tierCfg{wallSec: 600, detPct: 1}},
